@@ -2511,10 +2511,18 @@ func newRepo(uuid dvid.UUID, v dvid.VersionID, id dvid.RepoID, passcode string) 
 	return repo
 }
 
+// branchHeads returns the head of each branch as the running server tracks it (newRepo, newVersion):
+// the most recently created version of the branch, whether or not other branches hang off it.
+// The result of a merge only becomes a head through a later new version.
 func (r *repoT) branchHeads() map[string]dvid.UUID {
 	branchToUUID := make(map[string]dvid.UUID)
-	for _, node := range r.dag.nodes {
-		if len(node.children) == 0 {
+	headVersion := make(map[string]dvid.VersionID)
+	for v, node := range r.dag.nodes {
+		if len(node.parents) > 1 {
+			continue
+		}
+		if head, found := headVersion[node.branch]; !found || v > head {
+			headVersion[node.branch] = v
 			branchToUUID[node.branch] = node.uuid
 		}
 	}
